@@ -392,9 +392,52 @@ def rule_diagonal_solver(rep: Report, repo: Repo, complex_energies: bool = True)
 # ---------------------------------------------------------------------------
 
 
-def rule_shared_eigenvalue_check(rep: Report, repo: Repo):
+def _energy_divisions_elsewhere(rep: Report, repo: Repo, R: str):
+    """The shared-eigenvalue rejection lives in solve_sylvester_diagonal.  It protects every division by a difference of
+    unperturbed energies only if no other solver divides by such a difference itself: in solve_sylvester_KPM and
+    solve_sylvester_direct the explicit part must go through solve_sylvester_diagonal (or the Green's functions)."""
+    from .resolve import env_at, resolved
+    n = 0
+    for q in ("solve_sylvester_KPM", "solve_sylvester_direct"):
+        outer = repo.find(f"{MOD}::{q}", R)
+        for fn in [outer, *[d for d in ast.walk(outer) if isinstance(d, ast.FunctionDef) and d is not outer]]:
+            for node in own_nodes(fn):
+                den = None
+                if isinstance(node, ast.BinOp) and isinstance(node.op, ast.Div):
+                    den = node.right
+                elif isinstance(node, ast.BinOp) and isinstance(node.op, ast.Pow) and norm(node.right) in ("-1", "-1.0"):
+                    den = node.left
+                elif isinstance(node, ast.Call) and call_name(node) == "np.reciprocal" and node.args:
+                    den = node.args[0]
+                if den is None:
+                    continue
+                n += 1
+                env = env_at(node, fn, keep_params=True)
+                # names captured from the enclosing solver are resolved there too (what `eigs`, `aux_eigs` ... are)
+                if fn is not outer:
+                    env = {**{k_: v_ for k_, v_ in env_at(fn, outer, keep_params=True).items() if k_ not in env}, **env}
+                d = resolved(den, env)
+                for _ in range(3):  # values of the inner function mention names of the enclosing one
+                    d2 = resolved(d, env)
+                    if norm(d2) == norm(d):
+                        break
+                    d = d2
+                subs = [x for x in ast.walk(d) if isinstance(x, ast.BinOp) and isinstance(x.op, ast.Sub)]
+                energy = lambda e_: any((isinstance(y, ast.Attribute) and y.attr == "diagonal") or
+                                        (isinstance(y, ast.Name) and y.id in ("eigs", "eigenvalues", "eigs_rescaled")) for y in ast.walk(e_))
+                if any(energy(x.left) and energy(x.right) for x in subs):
+                    rep.fail(R, f"{MOD}::{q} divides by a difference of unperturbed energies itself: `{norm(node)[:70]}`",
+                             "outside solve_sylvester_diagonal nothing rejects two coupled blocks that share an eigenvalue: the quotient is inf / "
+                             "1e16 and the result is silent garbage", repo.loc(MOD, node))
+    rep.count("E7.shared.divisions_in_other_solvers", n)
+
+
+def rule_shared_eigenvalue_check(rep: Report, repo: Repo, divisions: bool = True):
     R = "E7.shared"
     from .cfg import CFG
+
+    if divisions:
+        _energy_divisions_elsewhere(rep, repo, R)
 
     outer, f = _solver(repo)
     loc = lambda n: repo.loc(MOD, n)
